@@ -1,6 +1,7 @@
 """C14 — operational-state and global-pause gating of financial instructions."""
 from props import authlib as A
 from props import c15 as C15
+from props import risklib as R, riskgen as RG
 
 ID = "C14"
 MANIFEST = {
@@ -181,7 +182,17 @@ def suites(rng, tier):
         {"suite": "auth", "name": "validate-bank-state-fn", "lines": [f"G {s} {k}" for s in range(4) for k in range(4)],
          "distribution": {"exhaustive": "4 states x 4 kinds"}},
         pause_cache_suite(rng, {"quick": 1200, "thorough": 30000, "search": 8000}[tier]),
+        reduce_only_suite(rng, {"quick": 400, "thorough": 6000, "search": 3000}[tier]),
     ]
+
+
+def reduce_only_suite(rng, n):
+    """reduce-only valuation through the real borrow / withdraw / liquidate handlers with e-mode entries lifting the
+    reduce-only bank's tag, Fixed and Pyth oracles: its deposits count for nothing toward new borrowing (Initial) and
+    in full for liquidation (Maintenance)"""
+    dist = {}
+    lines = [RG.gen_reduce_only_case(rng, dist) if i % 3 else RG.gen_liq_case(rng, dist, reduce_only_asset=True) for i in range(n)]
+    return {"suite": "risk", "name": "reduce-only-valuation", "lines": lines, "distribution": dict(dist, cases=n)}
 
 
 def pause_cache_suite(rng, n):
@@ -191,7 +202,41 @@ def pause_cache_suite(rng, n):
     return {"suite": "panic", "name": "pause-cache-orderings", "lines": lines, "distribution": {"schedules": n}}
 
 
+def oracle_reduce_only(tr):
+    """deposits in a reduce-only bank: nothing at Initial (new borrowing / withdrawing other collateral), full value at
+    Maintenance (liquidation). Evaluated on the real post-state of every accepted instruction of an account that holds
+    deposits in a reduce-only bank."""
+    if not tr.ok:
+        return None
+    for op, res, b0, a0, b1, a1, now, px in R.walk(tr):
+        if res != "OK":
+            continue
+        if op[0] in (2, 3):
+            slots = a1[op[1]]["slots"]
+            ro = [s for s in slots if s["a"] >= R.ONE and b1[s["bank"] - 1]["op_state"] == 2]
+            if not ro or not any(s["l"] >= R.ONE for s in slots):
+                continue
+            A, L, st, qn = R.health_q(tr.cfg, b1, slots, px, "init")       # counts reduce-only deposits as 0
+            if st == "ok" and A - L < -(R.tol(A, L) + qn):
+                return {"key": "reduce-only-collateral-counted-for-borrowing",
+                        "what": f"{R.OPN[op[0]]} accepted with init health {float(A - L)} once the deposits in reduce-only banks "
+                                f"{[s['bank'] - 1 for s in ro]} count for nothing (assets {float(A)}, liabilities {float(L)})"}
+        elif op[0] == 17:
+            liqee = op[2]
+            pre = a0[liqee]["slots"]
+            if not any(s["a"] >= R.ONE and b1[s["bank"] - 1]["op_state"] == 2 for s in pre):
+                continue
+            A, L, st, qn = R.health_q(tr.cfg, b1, pre, px, "maint")         # counts them in full
+            if st == "ok" and A - L > R.tol(A, L) + qn:
+                return {"key": "reduce-only-collateral-ignored-for-liquidation",
+                        "what": f"account liquidated although its maintenance health is {float(A - L)} with its reduce-only deposits counted"}
+    return None
+
+
 def nontrivial(suite, case, impl):
+    if suite == "risk":
+        tr = R.Trace(case, impl)
+        return R.gate_nontrivial(tr) or R.liq_nontrivial(tr)
     if suite == "panic":
         return " 5 " in case and " 6 " in case
     if case.startswith("G "):
@@ -201,6 +246,8 @@ def nontrivial(suite, case, impl):
 
 def oracle(suite, case, impl):
     """C14 evaluated on the real outcome of the cell."""
+    if suite == "risk":
+        return oracle_reduce_only(R.Trace(case, impl))
     if suite == "panic":
         v = C15.oracle(suite, case, impl)
         return v if v and v["key"].startswith("group-") else None
